@@ -36,13 +36,27 @@ func gen(c *hmain.Ctx) {
 		{Stream: "retry-backoff", Opts: pipedrv.FamRetryBackoff, N: 4},
 		{Stream: "retry-stop", Opts: pipedrv.FamRetryStop, N: 6},
 		{Stream: "deadqueue", Opts: pipedrv.FamDeadQStop, N: 6},
+		// spread routing (kafka-like input: UseSpread + DisableStreams): pool conservation does not depend on the routing
+		{Stream: "spread", Opts: pipedrv.FamSpread, N: 10},
+		{Stream: "spread-split", Opts: pipedrv.FamSpreadSplit, N: 5},
+		{Stream: "spread-create", Opts: pipedrv.FamSpreadCreate, N: 12},
 	})
+	// families that reach code of the anchored files no older family executes (notes/coverage/C05-triage.md; what each
+	// would expose: pipedrv/gen.go): every way In() refuses a record before / after the pool hand-out, match / metric
+	// options, shutdown with events in flight (no event goes back twice), batches sealed by byte size
+	pipedrv.GenFamilies(c, 0, pipedrv.CoverageFamilies(16, 8, 6, 20, 6))
+	stops := pipedrv.DirectedStops(c.Scale)
+	pipedrv.RunJobs(stops, 40)
+	for _, j := range stops {
+		pipedrv.Stats(c.W.Count, j)
+		c.W.Case(j.Stream, 0, j.Case, j.Obs, true)
+	}
 }
 
 func main() {
 	pipedrv.UseProductionNodePool()
 	hmain.Run(&hmain.Prop{ID: "C05",
-		Rule: "pipeline cases (see C02) with small pool capacities (2..24), decode errors, PassEvent refusals, discard / hold / collapse / split, retries and dead queue; observable = label trace incl. finalize(notify, back) and the pool state at quiescence. Threshold-crossing families: capacity-1, recycle (feeder op 6: pads up to 64 KiB / > 64 JSON nodes; op 'g' grows Buf; 4th case element = (avgEventSize ...)), split-fan (0-14 children); pool cases: streams size-classes (op 8: goroutine size up to 2^32-1) and recycle (op 9; gate-list option (1 avg)). Every case non-trivial; distinct = distinct case text.",
+		Rule: "pipeline cases (see C02) with small pool capacities (2..24), decode errors, PassEvent refusals, discard / hold / collapse / split, retries and dead queue; observable = label trace incl. finalize(notify, back) and the pool state at quiescence. Threshold-crossing families: capacity-1, recycle (feeder op 6: pads up to 64 KiB / > 64 JSON nodes; op 'g' grows Buf; 4th case element = (avgEventSize ...)), split-fan (0-14 children); pool cases: streams size-classes (op 8: goroutine size up to 2^32-1) and recycle (op 9; gate-list option (1 avg)). Coverage families (notes/coverage): in-variety (ext's 6th element = ((key value) ...) options of pipedrv.xopts: decoder raw / cri / auto / suggested, MaxEventSize drop / cut-off, antispam threshold, meta data, source-name meta field, saved stream offsets; empty records, non-CRI lines), match-variety (match modes or / and_prefix / or_prefix / do_if / invert, metric options), file-commit (InputPlugin.Commit handed to the real file-input jobProvider.commit: labels 118 / 119), early-stop (Pipeline.Stop with events in flight, random and directed stop-while-held; feeder op 7 asks for the stop; labels 116 / 120), batch-bytes (BatchSizeBytes). spread / spread-split / spread-create (kafka-like input: UseSpread + DisableStreams). Every case non-trivial; distinct = distinct case text.",
 		Gen:  gen, Exec: func(which int, cs hx.Sx) hx.Sx {
 			if which == 10 || which == 11 {
 				return pooldrv.RunCase(cs)
